@@ -23,6 +23,7 @@ EXPLANATION = (
     "cannot wedge the server: EOF/reset map to a clean end. Decides these clauses, not behaviour under every "
     "fragmentation and completion order. "
     'Also: R-C16-7 futures awaited unshielded by their callers are completed only under a cancelled()/done() guard and all pending calls are failed when the receive loop ends; R-C16-8 the blocking reader repeats recv until the requested size is buffered, and no attrs field of the connection/client classes has a shared mutable default; _call_and_capture_failure catches BaseException.'
+    ' R-C16-9 a shared hash job is queued, retired by a done-callback and completed however its task ends (cancellation included), waiters shield it; R-C16-10 every blocking wait in a request handler includes the stop event.'
 )
 ASSUMPTIONS = ["asyncio streams deliver bytes in order; readexactly returns exactly n bytes or raises"]
 
